@@ -125,6 +125,26 @@ def shared_gen(rng):
     return ProbeGrammar(rng, variants, defs, outputs)
 
 
+def head_overlap_gen(rng):
+    """within-word expressions whose literals at *different* places overlap: the head is a prefix of a value, a value
+    is a prefix of the text that follows the group, ... (the one-pass matcher looks at all literals of the word)"""
+    head = rng.choice(["v", "ab", "-", "x"])
+    others = ["x", "zz", "k9", "on", "q"]
+    vals = [head + rng.choice(["w", "1", "zz"]), rng.choice([o for o in others if not o.startswith(head) and not head.startswith(o)])]
+    if rng.random() < 0.5:
+        vals.append(head + head)
+    rng.shuffle(vals)
+    tail = ("alt", [("lit", v, None) for v in vals])
+    parts = [("lit", head, None), tail]
+    if rng.random() < 0.4:
+        parts.append(("lit", rng.choice([",", ":" + head, "%"]), None))
+    word = ("sub", parts)
+    variants = [("seq", [word, ("lit", "next", None)])]
+    if rng.random() < 0.4:
+        variants.append(("seq", [("lit", "other", None), ("sub", [("lit", "p" + head, None), ("alt", [("lit", head, None), ("lit", "y", None)])])]))
+    return ProbeGrammar(rng, variants, [], {})
+
+
 def vocabulary(pg):
     """literal texts, command candidates, and a few foreign / glob-looking words"""
     lits = []
@@ -200,6 +220,90 @@ def explore(rng, pg, script, workdir, max_seqs=14, max_len=3, wordbreaks=(None, 
     return lines
 
 
+_key_order = None
+
+
+def bash_key_order():
+    """the order in which this bash iterates over the keys 0..399 of an associative array (`"${!a[@]}"`): a property
+    of bash's hash table, obtained from bash itself; the model of the template takes it as a parameter"""
+    global _key_order
+    if _key_order is None:
+        r = subprocess.run(["bash", "--norc", "--noprofile", "-c", 'declare -A a; for i in $(seq 0 399); do a[$i]=x; done; echo "${!a[@]}"'],
+                           capture_output=True, text=True)
+        _key_order = {int(k): i for i, k in enumerate(r.stdout.split())}
+    return _key_order
+
+
+def _rows(pairs, assoc_order=False):
+    by = {}
+    for q, a, b in pairs:
+        by.setdefault(q, []).append((a, b))
+    if assoc_order:
+        ko = bash_key_order()
+        for q in by:
+            by[q].sort(key=lambda ab: ko.get(ab[0], 10**6))
+    return "/".join(f"{q}:{','.join(f'{a}>{b}' for a, b in v)}" for q, v in by.items())
+
+
+def _levels(triples, nlevels):
+    out = []
+    for lvl in range(nlevels):
+        by = {}
+        for l, q, i in triples:
+            if l == lvl:
+                by.setdefault(q, []).append(str(i))
+        out.append("/".join(f"{q}:{'.'.join(v)}" for q, v in by.items()))
+    return "|".join(out)
+
+
+def tables_wire(facts, decoded):
+    """facts of vlib/tables.py (bash: base 0) -> the wire form of BashRt.Tables"""
+    lits = sorted((f for f in facts if f[0] == "lit"), key=lambda f: f[1])
+    mx = max([f[1] for f in facts if f[0] == "max"] + [0])
+    nl = mx + 1
+    parts = ["lits=" + ",".join(core.hexs(decoded[f[2]]) for f in lits),
+             "lt=" + _rows([(f[1], f[2], f[3]) for f in facts if f[0] == "mL"]),
+             "ct=" + _rows([(f[1], f[2], f[3]) for f in facts if f[0] == "mC"], assoc_order=True),
+             "st=" + ",".join(f"{f[1]}>{f[2]}" for f in facts if f[0] == "mX"),
+             "wt=" + _rows([(f[1], f[2], f[3]) for f in facts if f[0] == "mW"], assoc_order=True),
+             "ll=" + _levels([(f[1], f[2], f[3]) for f in facts if f[0] == "cL"], nl),
+             "cl=" + _levels([(f[1], f[2], f[3]) for f in facts if f[0] == "cC"], nl),
+             "wl=" + _levels([(f[1], f[2], f[3]) for f in facts if f[0] == "cW"], nl),
+             f"max={mx}"]
+    return ";".join(parts)
+
+
+def bashrt_request(pg, script, lines):
+    """the model of the bash template on the tables of this very script. Returns the request line or None"""
+    import re
+    from . import tables
+    try:
+        t = tables.extract_tables(script.decode("utf-8", "replace"), "bash")
+    except ValueError:
+        return None
+    raws = sorted({f[2] for facts in [t["main"]] + list(t["subs"].values()) for f in facts if f[0] == "lit"})
+    ans = core.driver_batch([f"decode bash {core.hexs(r)}" for r in raws]) if raws else []
+    decoded = {}
+    for r, a in zip(raws, ans):
+        if not a.startswith("ok "):
+            return None
+        decoded[r] = core.unhexs(a[3:])
+    outs = []
+    for cid, body in t["cmds"].items():
+        m = re.match(r'__probe (\d+) ', body)
+        if not m:
+            return None
+        out = pg.outputs.get(int(m.group(1)), "")
+        ls = out.split("\n")
+        if ls and ls[-1] == "":
+            ls.pop()
+        outs.append(f"{cid}=" + ",".join(core.hexs(l) for l in ls))
+    dwb = default_wordbreaks()
+    cls = ";".join(",".join([core.hexs(dwb if wb is None else wb)] + [core.hexs(w) for w in ws] + [core.hexs(p)]) for wb, ws, p in lines)
+    subs = "&".join(f"{sid}@{tables_wire(f, decoded)}" for sid, f in t["subs"].items()) or "-"
+    return f"bashrt {t['start']} {';'.join(outs) or '-'} {tables_wire(t['main'], decoded)} {subs} {cls}"
+
+
 def run_both(pg, script, tree, lines, workdir):
     """the real bash and the Lean spec on the same command lines. Returns [(line, bash(rc, reply, log), spec dict)]"""
     reqs = [(wb, ["cmd"] + ws + [p]) for wb, ws, p in lines]
@@ -208,9 +312,21 @@ def run_both(pg, script, tree, lines, workdir):
         return None
     dwb = default_wordbreaks()
     cls = ";".join(",".join([core.hexs(dwb if wb is None else wb)] + [core.hexs(w) for w in ws] + [core.hexs(p)]) for wb, ws, p in lines)
-    ans = core.driver_batch([f"complete bash {pg.out_table()} {cls} {tree}"], timeout=900)[0]
+    reqs = [f"complete bash {pg.out_table()} {cls} {tree}"]
+    br = bashrt_request(pg, script, lines)
+    if br is not None:
+        reqs.append(br)
+    answers = core.driver_batch(reqs, timeout=900)
+    ans = answers[0]
     if not ans.startswith("ok "):
         return None
+    model = None
+    if br is not None and answers[1].startswith("ok "):
+        model = []
+        for part in answers[1][3:].split(" ; "):
+            model.append(None if part == "N" else ([] if part == "E" else sorted(set(core.unhexs(h) for h in part.split(",")))))
+        if len(model) != len(lines):
+            model = None
     specs = []
     for part in ans[3:].split(" ; "):
         f = part.split("|")
@@ -235,6 +351,9 @@ def run_both(pg, script, tree, lines, workdir):
                       "required": calls(f[4]), "allowed": calls(f[5])})
     if len(specs) != len(lines):
         return None
+    for k, sp in enumerate(specs):
+        if sp is not None:
+            sp["model"] = model[k] if model is not None else "absent"
     return list(zip(lines, bres, specs))
 
 
